@@ -1,7 +1,11 @@
 #!/bin/bash
 # seedrun.sh <patch.diff> <prop> [more props...] : apply to /repo, run the checks, undo.
+# The evidence files of the unchanged tree are put back afterwards (a run on a mutated tree must
+# never end up committed as evidence).
 PATCH=$1; shift
-cd /repo && git apply $PATCH || { echo "cannot apply $PATCH"; exit 2; }
+BK=$(mktemp -d /verif/.build/evbk.XXXXXX)
+cp /verif/evidence/*.json $BK/ 2>/dev/null
+cd /repo && git apply $PATCH || { echo "cannot apply $PATCH"; rm -rf $BK; exit 2; }
 cd /verif
 for p in "$@"; do
   out=$(bin/check $p 2>&1); rc=$?
@@ -9,3 +13,5 @@ for p in "$@"; do
   echo "$out" | grep '^#' | head -2
 done
 git -C /repo checkout -- .
+cp $BK/*.json /verif/evidence/ 2>/dev/null; rm -rf $BK
+(cd /verif && bin/translate-all >/dev/null 2>&1)
